@@ -14,3 +14,9 @@ Definition ix_and (x y : Z) : Z := Z.land x y.
 Definition ix_saturating_sub (a b : Z) : Z := if a <? b then 0 else a - b.
 (* Digit::count_zeros *)
 Definition u_count_zeros (w x : Z) : Z := w - u_count_ones x.
+(* u32::checked_sub *)
+Definition ix_checked_sub (a b : Z) : option Z := if a <? b then None else Some (a - b).
+(* `i << s` on usize in index arithmetic (`i << BIT_SHIFT`): like `+`, never assumed to overflow *)
+Definition ix_shl (x s : Z) : Z := Z.shiftl x s.
+(* iN/uN::wrapping_shr(s) on the VALUE of a pb-bit primitive integer: self >> (s & (BITS - 1)), arithmetic for iN = floor division *)
+Definition p_wrapping_shr (pb x s : Z) : Z := x / 2 ^ (s mod pb).
